@@ -741,6 +741,29 @@ func reach(p eaPair, path []pelem, optCtx bool, fuel int) []eaPair {
 			}
 		}
 	}
+	// Callable against Callable: the parameter tuples are described under the same path (absent actual parameters = the default
+	// Tuple); the return / block types are final positions below `return` / `block`
+	if e.K == "call" {
+		ep := lat.CallParts(e)
+		var apar [3]*lat.Ty
+		aCall := p.hasA && a.K == "call"
+		if aCall {
+			apar = lat.CallParts(a)
+		}
+		if ep[0] != nil && (aCall || !p.hasA) {
+			at := lat.TupSz(nil, 0, lat.MaxI)
+			if apar[0] != nil {
+				at = *apar[0]
+			}
+			out = append(out, reach(eaPair{*ep[0], at, aCall}, path, false, fuel-1)...)
+		}
+		if len(path) == 1 && path[0].tag == "r" && ep[1] != nil {
+			out = append(out, eaPair{*ep[1], lat.Ty{}, false})
+		}
+		if len(path) == 1 && path[0].tag == "b" && ep[2] != nil {
+			out = append(out, eaPair{*ep[2], lat.Ty{}, false})
+		}
+	}
 	if len(path) == 0 {
 		return out
 	}
@@ -822,7 +845,7 @@ func hasMergeKinds(t lat.Ty) bool {
 // noMergeT / plainT: the Go twins of `noMerge` / `plain` (lean/Pcore/Proofs/DescribeLeaf.lean, DescribeTm.lean)
 func noMergeT(t lat.Ty) bool {
 	switch t.K {
-	case "var", "data", "rdata":
+	case "var", "data", "rdata", "call":
 		return false
 	case "arr", "hash", "tup", "opt":
 		for _, k := range t.Ts {
